@@ -153,8 +153,30 @@ func noteOwner(x any, get bool) {
 	}
 }
 
+var plainMu sync.Mutex
+
+// inRun: is a scheduler run or a pool simulation active (the baton serialises everything then)?
+//
+//go:norace
+func inRun() bool { return schedActive || poolSim }
+
 // Get mirrors sync.Pool.Get.
 func (p *Pool) Get() any {
+	if !inRun() {
+		// outside a simulated run (repository-test gate, where goroutines of the code
+		// under test run for real): a plain mutex-protected free list
+		plainMu.Lock()
+		p.register()
+		ch, ok := p.pick()
+		plainMu.Unlock()
+		if ok {
+			return <-ch
+		}
+		if p.New != nil {
+			return p.New()
+		}
+		return nil
+	}
 	p.register()
 	SchedPoint(-1)
 	markCrit(+1)
@@ -186,6 +208,18 @@ func markCrit(d int8) {
 
 // Put mirrors sync.Pool.Put.
 func (p *Pool) Put(x any) {
+	if !inRun() {
+		if x == nil {
+			return
+		}
+		ch := make(chan any, 1)
+		ch <- x
+		plainMu.Lock()
+		p.register()
+		p.store(ch)
+		plainMu.Unlock()
+		return
+	}
 	p.register()
 	if x == nil {
 		return
@@ -439,10 +473,72 @@ func spin() {
 			return
 		}
 		if to < 0 {
-			panic("verifrt: deadlock - a caller waits on a lock or channel and no other task is alive")
+			panic(Deadlock{Msg: deadlockInfo("verifrt: deadlock - a caller waits on a lock or channel and no other task is alive"), PollingSelect: selectPollers > 0})
 		}
-		panic("verifrt: deadlock - every live task waits on a channel or lock that nobody will release")
+		panic(Deadlock{Msg: deadlockInfo("verifrt: deadlock - every live task waits on a channel or lock that nobody will release"), PollingSelect: selectPollers > 0})
 	}
 	handOver(me, to, -6)
 	waitBaton(me)
 }
+
+//go:norace
+func deadlockInfo(msg string) string {
+	d := []byte(msg + " [alive=")
+	d = appendInt(d, nAlive)
+	d = append(d, " callers="...)
+	d = appendInt(d, nAliveBase)
+	d = append(d, " parked="...)
+	d = appendInt(d, nBlocked)
+	d = append(d, " me="...)
+	d = appendInt(d, cur)
+	d = append(d, " parkedIDs="...)
+	for i := nextID(-1); i >= 0; i = nextID(i) {
+		if blockedOn[i] != 0 {
+			d = appendInt(d, i)
+			if blockedSend[i] {
+				d = append(d, 's')
+			} else {
+				d = append(d, 'r')
+			}
+			if !alive[i] {
+				d = append(d, '!')
+			}
+			d = append(d, ' ')
+		}
+	}
+	return string(append(d, ']'))
+}
+
+func appendInt(b []byte, v int) []byte {
+	if v < 0 {
+		b = append(b, '-')
+		v = -v
+	}
+	var t [20]byte
+	n := 0
+	for {
+		t[n] = byte('0' + v%10)
+		n++
+		v /= 10
+		if v == 0 {
+			break
+		}
+	}
+	for n > 0 {
+		n--
+		b = append(b, t[n])
+	}
+	return b
+}
+
+// Deadlock is what a task panics with when every live task waits. With
+// PollingSelect set a rewritten select was among the waiting: two selects
+// facing each other on an unbuffered channel never meet in this simulator, so
+// such a deadlock may be the simulator's and is reported as infrastructure
+// trouble; without it the deadlock is the program's.
+type Deadlock struct {
+	Msg           string
+	PollingSelect bool
+}
+
+func (d Deadlock) Error() string { return d.Msg }
